@@ -24,14 +24,37 @@ theorem e_ne_helper (k : Nat) : "_e" ≠ helperName k := by
   have := congrArg String.toList e
   simp [helperName, String.toList_append] at this
 
+theorem flag_ne_fa0 (j : Nat) : flagName j ≠ "_fa0" := by
+  intro e
+  have h' : (flagName j).toList = ("_fa0" : String).toList := by rw [e]
+  simp [flagName_eq, String.toList_append] at h'
+
+theorem flag_ne_e (j : Nat) : flagName j ≠ "_e" := by
+  intro e
+  have h' : (flagName j).toList = ("_e" : String).toList := by rw [e]
+  simp [flagName_eq, String.toList_append] at h'
+
+/-- the exit-code variable `_e` and every loop flag `_fv<j>` keep their values -/
+def Keeps (ρ ρ' : Store) : Prop := ρ' "_e" = ρ "_e" ∧ ∀ j, ρ' (flagName j) = ρ (flagName j)
+
+theorem Keeps.refl (ρ : Store) : Keeps ρ ρ := ⟨rfl, fun _ => rfl⟩
+theorem Keeps.trans {ρ ρ1 ρ2 : Store} (h1 : Keeps ρ ρ1) (h2 : Keeps ρ1 ρ2) : Keeps ρ ρ2 :=
+  ⟨by rw [h2.1, h1.1], fun j => by rw [h2.2 j, h1.2 j]⟩
+theorem keeps_of_frameH {a b : Nat} {ρ ρ' : Store} (fr : FrameH a b ρ ρ') : Keeps ρ ρ' :=
+  ⟨fr _ (fun k _ _ => e_ne_helper k), fun j => fr _ (fun k _ _ => flag_ne_helper j k)⟩
+theorem keeps_set_good {ρ : Store} (x v : String) (hx : goodName x = true) : Keeps ρ (ρ.set x v) :=
+  ⟨set_other _ _ _ _ (fun e => by subst e; revert hx; decide), fun j => set_other _ _ _ _ (fun e => good_ne_flag x j hx e.symm)⟩
+theorem keeps_set_fa0 {ρ : Store} (v : String) : Keeps ρ (ρ.set "_fa0" v) :=
+  ⟨set_other _ _ _ _ (by decide), fun j => set_other _ _ _ _ (flag_ne_fa0 j)⟩
+
 /-- What a statement's translation does.  For every run of the source statement from a configuration `c`:
     the state advanced by new global lines only, and from every store that agrees with `c`'s environment the new
     lines run, in the cmd model, to the same outcome and the same printed lines; after a normal end the store
-    agrees with the new environment and the exit-code variable `_e` is untouched. -/
+    agrees with the new environment and the exit-code variable `_e` and the loop flags are untouched. -/
 def StmtSemB (src : Src.SCfg → Option (Out × Src.SCfg)) (s s' : St) : Prop :=
   ∀ c o c', src c = some (o, c') → ∃ new n, Adv s s' new n ∧
     ∀ ρ, Agree c.env ρ → ∃ ρ', runLinesB new.reverse ⟨ρ, c.out⟩ = some (o, ⟨ρ', c'.out⟩) ∧
-      (o = .normal → Agree c'.env ρ' ∧ ρ' "_e" = ρ "_e")
+      (o = .normal → Agree c'.env ρ' ∧ Keeps ρ ρ')
 
 theorem assign1B_ok {x : Var} {e : Expr} {s s' : St} {a : Unit}
     (h : assignValues conv [x] [e] s = .ok (a, s')) :
@@ -62,7 +85,7 @@ theorem assign1B_ok {x : Var} {e : Expr} {s s' : St} {a : Unit}
 theorem varAssignment_top {n v : String} {g : Bool} {s s' : St} (h0 : s.funcs = []) (h : varAssignment n v g s = .ok ((), s')) :
     Adv s s' [.set n v] 0 := by
   simp [varAssignment, bind, Tr.get, addLine, h0, varName, inFunction] at h
-  rw [← h]; exact ⟨rfl, rfl, h0.symm, rfl⟩
+  rw [← h]; exact ⟨rfl, rfl, h0.symm, rfl, rfl, rfl, rfl, rfl, rfl⟩
 
 theorem stepB_set {t v : String} {k : Nat} {ρ : Store} (out : List String) (x : String) (h : HoldsD t v k ρ) :
     stepB (.set x t) ⟨ρ, out⟩ = some (.normal, ⟨ρ.set x v, out⟩) := by
@@ -92,8 +115,7 @@ theorem assign1B_sem {x : Var} {e : Expr} (hx : goodName x.name = true) {s s' : 
     · rw [List.reverse_append, runLinesB_of_runN run1]
       simp only [List.reverse_cons, List.reverse_nil, List.nil_append, runLinesB, firstValue, List.headD_cons,
         stepB_set c.out x.name hold1]
-    · rw [set_other _ _ _ _ (good_ne_e _ hx)]
-      exact fr1 _ (fun k _ _ => e_ne_helper k)
+    · exact (keeps_of_frameH fr1).trans (keeps_set_good _ _ hx)
 
 /-! ### print, panic -/
 
@@ -177,7 +199,7 @@ theorem callEcho_top {vals : List String} {s s' : St} (h0 : s.funcs = []) (h : c
   simp [callEcho, callFunc, setGlobalArgs, varAssignment, bind, Tr.get, Tr.modify, addLine, h0, varName, inFunction,
     funcArgVar, trimLeftColon, pure] at h
   rw [← h]
-  exact ⟨rfl, rfl, h0.symm, rfl⟩
+  exact ⟨rfl, rfl, h0.symm, rfl, rfl, rfl, rfl, rfl, rfl⟩
 
 theorem fa0_ne_helper (k : Nat) : "_fa0" ≠ helperName k := by
   intro e
@@ -218,8 +240,7 @@ theorem printB_sem {es : List Expr} {s s' : St} (h0 : s.funcs = [])
           simp only [stepB, (holdsAllD_intercalate hold1).toExpand]
         simp only [List.reverse_cons, List.reverse_nil, List.nil_append, List.cons_append, runLinesB, e1]
         simp [stepB, set_same, hsafe]
-      · rw [set_other _ _ _ _ (by decide)]
-        exact fr1 _ (fun k _ _ => e_ne_helper k)
+      · exact (keeps_of_frameH fr1).trans (keeps_set_fa0 _)
     · simp at hs
   · simp at hs
 
@@ -228,7 +249,7 @@ theorem panicOp_top {v : String} {s s' : St} (h0 : s.funcs = []) (h : panicOp v 
   simp [panicOp, callEcho, callFunc, setGlobalArgs, varAssignment, bind, Tr.get, Tr.modify, addLine, h0, varName, inFunction,
     funcArgVar, trimLeftColon, pure] at h
   rw [← h]
-  exact ⟨rfl, rfl, h0.symm, rfl⟩
+  exact ⟨rfl, rfl, h0.symm, rfl, rfl, rfl, rfl, rfl, rfl⟩
 
 theorem panicB_sem {e : Expr} {s s' : St} (h0 : s.funcs = [])
     (h : (do let r ← Tr.evalExpr conv e true; conv.panic s!"panic: {firstValue r}" : BM Unit) s = .ok ((), s')) :
